@@ -34,7 +34,7 @@ from ..harness import Section
 from . import _entry_labelgen as G
 
 SEPS = ["\n", "\r\n", " ", "\t", ";\n", "\n\n"]
-TAILS = ["none", "rand1k", "nul", "badutf8", "morepvl", "utf8text"]
+TAILS = ["none", "rand1k", "nul", "badutf8", "truncutf8", "morepvl", "utf8text"]
 LOAD_ROUTES = ["load-str-path", "load-Path", "loadu-file-url", "load-text-stream", "load-binary-stream",
                "load-BytesIO", "load-StringIO", "loads-str", "loads-bytes"]
 STR_ROUTES = ("load-StringIO", "loads-str")
@@ -87,6 +87,11 @@ def make_tail(family, seed):
         return b"\x00" * rng.choice([1, 7, 300])
     if family == "badutf8":
         return rng.choice([b"\xff", b"\xc3", b"\xe2\x82", b"\x80abc", b"\xf0\x9f\x98 x = 1\n"]) + b"tail"
+    if family == "truncutf8":
+        # valid UTF-8 that stops part-way through its last multi-byte character (end of file inside a character)
+        return rng.choice([b"\xc3", b"caf\xc3", "prix 5 \u20ac".encode("utf-8")[:-1], b"\xe2\x82", b"\xf0\x9f\x98",
+                           b"\xf0\x9f", "donn\u00e9es \U0001f600".encode("utf-8")[:-2],
+                           ("\u00e9" * 40).encode("utf-8")[:-1], b"x = 1\n\xe2"])
     if family == "morepvl":
         return rng.choice([b"x = 1", b"x = 1\nEND\n", b"GROUP = g\n y = 2\nEND_GROUP\n", b"= 3\n", b"zzz = (1,\n"])
     if family == "utf8text":
@@ -717,7 +722,8 @@ def sections(ctx):
         s = Section("routes", "bounded", bounded=True,
                     rule="generated labels (ASCII incl. empty values/comments; UTF-8 with 2/3/4-byte characters in "
                          "quoted strings; ODL subset) and every corpus file cut after its END statement, x trailing "
-                         "family (none, 1 KB random binary, NULs, invalid UTF-8 right after the separator, text that "
+                         "family (none, 1 KB random binary, NULs, invalid UTF-8 right after the separator, valid UTF-8 "
+                         "cut inside its last multi-byte character, text that "
                          "looks like more PVL, valid UTF-8 text) x separators after END x 9 routes; distinct = "
                          "(label, family, separator, route); reference = pvl.loads(label text alone)",
                     bounds={"generated": len(gen), "corpus": len(corp), "separators_per_family": 1 + sep_count,
